@@ -105,12 +105,12 @@ class CopyConfig(RPC):
         node = new_ele("copy-config")
         node.append(util.datastore_or_url("target", target, self._assert))
 
-        try:
-            # datastore name or URL
-            node.append(util.datastore_or_url("source", source, self._assert))
-        except Exception:
+        if etree.iselement(source) or (isinstance(source, str) and source.lstrip().startswith("<")):
             # `source` with `config` element containing the configuration subtree to copy
             node.append(validated_element(source, ("source", qualify("source"))))
+        else:
+            # datastore name or URL
+            node.append(util.datastore_or_url("source", source, self._assert))
 
         return self._request(node)
 
